@@ -25,6 +25,7 @@ import (
 	"sort"
 	"strconv"
 	"strings"
+	"syscall"
 	"time"
 
 	vegeta "github.com/tsenart/vegeta/v12/lib"
@@ -350,6 +351,27 @@ type cliCase struct {
 	Parts   [][]int          `json:"parts"` // indices into Results, per file, in file order
 	Encs    []string         `json:"encodings"`
 	To      string           `json:"to"`
+	// inputs delivered through a named pipe instead of a regular file (same bytes): a pipe has size 0
+	// and returns short reads
+	Fifo []bool `json:"fifo,omitempty"`
+}
+
+// fifoFeeder writes `data` into the named pipe `path` once a reader has opened it; cancel releases it.
+func fifoFeeder(path string, data []byte, cancel <-chan struct{}, done chan<- struct{}) {
+	defer func() { done <- struct{}{} }()
+	for {
+		f, err := os.OpenFile(path, os.O_WRONLY|syscall.O_NONBLOCK, 0)
+		if err == nil {
+			f.Write(data)
+			f.Close()
+			return
+		}
+		select {
+		case <-cancel:
+			return
+		case <-time.After(time.Millisecond):
+		}
+	}
 }
 
 // reference metrics, computed directly from the result set (order-free definitions)
@@ -547,6 +569,7 @@ type cliRun struct {
 	dir   string
 	nfile int
 	to    string // forced output encoding (replay)
+	fifo  []bool // forced named-pipe inputs (replay)
 }
 
 func (cr *cliRun) path(name string) string { return filepath.Join(cr.dir, name) }
@@ -600,9 +623,40 @@ func (cr *cliRun) runSet(results []gen.ResultSpec, splits [][][]int, assignments
 	var ops []string
 	var pend []pending
 	nout := 0
+	cancel := make(chan struct{})
+	fed := make(chan struct{}, 1024)
+	feeders := 0
+	defer func() {
+		close(cancel)
+		for ; feeders > 0; feeders-- {
+			<-fed
+		}
+	}()
 	add := func(kind string, cc cliCase, files []string, base bool) {
 		out := cr.path(fmt.Sprintf("out%d", nout))
 		nout++
+		if len(cc.Fifo) == len(files) {
+			files = append([]string{}, files...)
+			for p := range files {
+				if !cc.Fifo[p] {
+					continue
+				}
+				data, err := os.ReadFile(files[p])
+				if err != nil {
+					panic(err)
+				}
+				fifo := cr.path(fmt.Sprintf("in%d_%d.fifo", nout, p))
+				if err := syscall.Mkfifo(fifo, 0o600); err != nil {
+					s.Skipped["cli:mkfifo_failed"]++
+					continue
+				}
+				files[p] = fifo
+				feeders++
+				go fifoFeeder(fifo, data, cancel, fed)
+				s.Count(fmt.Sprintf("cli:fifo_at_position=%d", p))
+			}
+			s.Count("cli:op_with_fifo_inputs")
+		}
 		switch kind {
 		case "json":
 			ops = append(ops, reportOp("json", "", out, files))
@@ -661,12 +715,30 @@ func (cr *cliRun) runSet(results []gen.ResultSpec, splits [][][]int, assignments
 			if cr.to != "" {
 				cc.To = cr.to
 			}
+			if len(cr.fifo) == len(parts) {
+				cc.Fifo = cr.fifo
+			}
 			if ai%2 == 0 {
 				add("json", cc, files, false)
 			} else {
 				add("jsonb", cc, files, false)
 			}
 			add("encode", cc, files, false)
+			if ai < 2 || len(cc.Fifo) > 0 {
+				// the same inputs, one or more of them through a named pipe (every position over the runs)
+				fc := cc
+				if len(fc.Fifo) == 0 {
+					fc.Fifo = make([]bool, len(parts))
+					fc.Fifo[(si+ai+cr.nfile)%len(parts)] = true
+					if ai == 1 {
+						for p := range fc.Fifo {
+							fc.Fifo[p] = fc.Fifo[p] || (si+p+cr.nfile)%2 == 0
+						}
+					}
+				}
+				add("jsonb", fc, files, false)
+				add("encode", fc, files, false)
+			}
 			if allTypes && ai == 0 {
 				add("text", cc, files, false)
 				add("hist", cc, files, false)
@@ -1231,7 +1303,7 @@ func replay(c *run.Ctx, s *kit.Summary) {
 		if err := json.Unmarshal(rec.Input, &cc); err != nil {
 			panic(err)
 		}
-		cr := &cliRun{c: c, s: s, drain: &kit.Stream{Name: "c13.drain(replay)"}, to: cc.To}
+		cr := &cliRun{c: c, s: s, drain: &kit.Stream{Name: "c13.drain(replay)"}, to: cc.To, fifo: cc.Fifo}
 		encs := cc.Encs
 		cr.runSet(cc.Results, [][][]int{cc.Parts}, func(k int) [][]string { return [][]string{encs} }, true)
 		cr.drain.Diff(c.Driver, s)
